@@ -323,8 +323,10 @@ class UpdateCollection(Message):
             if error:
                 raise ValueError(error)
 
+            # RFC 4760: the NLRI field of the UPDATE is IPv4 unicast only, every other family
+            # (IPv4 multicast included) travels in MP_REACH_NLRI with its own SAFI
             is_v4 = nlri.afi == AFI.ipv4
-            is_v4 = is_v4 and nlri.safi in [SAFI.unicast, SAFI.multicast]
+            is_v4 = is_v4 and nlri.safi == SAFI.unicast
             is_v4 = is_v4 and nexthop.afi == AFI.ipv4
 
             if is_v4:
@@ -352,7 +354,7 @@ class UpdateCollection(Message):
                 continue
 
             is_v4 = nlri.afi == AFI.ipv4
-            is_v4 = is_v4 and nlri.safi in [SAFI.unicast, SAFI.multicast]
+            is_v4 = is_v4 and nlri.safi == SAFI.unicast
 
             if is_v4:
                 v4_withdraws.append(nlri)
